@@ -325,6 +325,10 @@ let run_k2_line (line : string) =
     pr "}";
     let b x = if x then "true" else "false" in
     pr ",\"cert_first\":{\"wf_ids\":%s,\"productive\":%s,\"closed\":%s}" (b (wf_ids_b g)) (b (productive_b g)) (b (first_closed g s.s_first));
+    pr ",\"cert_follow\":{\"closed\":%s}" (b (fol_closed g s.s_first s.s_follow));
+    (match s.s_dom with
+     | [] -> pr ",\"cert_recovery\":null"
+     | d -> pr ",\"cert_recovery\":%s" (b (recovery_cert g d)));
     pr "}\n"
 
 let () =
